@@ -194,6 +194,13 @@ fn oracle_inner(c: &Case) -> Expect {
     }
     // input
     let delivered = match c.input_via.as_str() {
+        // `-f -`: a file literally named "-" in the working directory (stdin holds a decoy)
+        "file_dash" => {
+            if c.real_fs.iter().any(|x| x == "input_missing") {
+                return Expect::Failure("input file '-' does not exist (real)".into());
+            }
+            Ok(c.input.clone())
+        }
         "file" => {
             if c.real_fs.iter().any(|x| x == "input_missing" || x == "input_is_dir") {
                 return Expect::Failure("input file unreadable (real)".into());
@@ -290,6 +297,12 @@ fn run_case(env: &Env, c: &Case, tag: &str) -> Result<Obs, String> {
         }
         opt(&mut flags, "-e", "--expr-file", &expr_path);
     }
+    if c.input_via == "file_dash" {
+        if !c.real_fs.iter().any(|x| x == "input_missing") {
+            std::fs::write(format!("{}/-", dir), &c.input).map_err(|e| e.to_string())?;
+        }
+        opt(&mut flags, "-f", "--filename", "-");
+    }
     if c.input_via == "file" {
         if c.real_fs.iter().any(|x| x == "input_is_dir") {
             std::fs::create_dir_all(&in_path).map_err(|e| e.to_string())?;
@@ -329,6 +342,10 @@ fn run_case(env: &Env, c: &Case, tag: &str) -> Result<Obs, String> {
         cmd.stdin(Stdio::piped());
     } else if c.input_via == "stdin_file" {
         std::fs::write(&stdin_path, &c.input).map_err(|e| e.to_string())?;
+        cmd.stdin(std::fs::File::open(&stdin_path).map_err(|e| e.to_string())?);
+    } else if c.input_via == "file_dash" {
+        // a decoy on stdin: a jp that takes "-" to mean stdin would happily succeed on it
+        std::fs::write(&stdin_path, b"{\"decoy\": true, \"a\": [1], \"xs\": [], \"u\": \"decoy\"}").map_err(|e| e.to_string())?;
         cmd.stdin(std::fs::File::open(&stdin_path).map_err(|e| e.to_string())?);
     } else {
         cmd.stdin(Stdio::null());
@@ -553,6 +570,11 @@ fn gen_input(r: &mut Rng, base: &J) -> (Vec<u8>, &'static str) {
                     // a long string whose multi-byte characters straddle buffer boundaries
                     let target = *r.pick(&[4096usize, 8192, 16384, 65536, 131072]);
                     let mut s = String::from("{\"u\": \"");
+                    if r.chance(1, 2) {
+                        // a line break early in a long string: everything after it must still be printed
+                        let heads: [&str; 3] = ["l1\\n", "\\n", "a\\r\\nb\\n"];
+                        s.push_str(heads[r.below(3)]);
+                    }
                     while s.len() < target - 3 - r.below(3) {
                         s.push('a');
                     }
@@ -713,7 +735,7 @@ fn gen_expr(r: &mut Rng, base: &J) -> (Vec<u8>, &'static str) {
 fn gen_plan(r: &mut Rng, c: &Case) -> Vec<String> {
     let mut plan = vec![];
     let in_target = if c.input_via == "file" { "in.json" } else { "stdin" };
-    let mut targets = vec![in_target];
+    let mut targets = if c.input_via == "file_dash" { vec![] } else { vec![in_target] };
     if c.expr_via == "file" {
         targets.push("expr.txt");
     }
@@ -724,6 +746,9 @@ fn gen_plan(r: &mut Rng, c: &Case) -> Vec<String> {
         _ => 2,
     };
     for _ in 0..n {
+        if targets.is_empty() {
+            break;
+        }
         let t = *r.pick(&targets);
         match r.below(12) {
             0..=3 => {
@@ -794,7 +819,11 @@ fn gen_case(seed: u64) -> Case {
         expr,
         expr_via: if !expr_utf8_argv_ok || r.chance(1, 3) { "file".into() } else { "argv".into() },
         input,
-        input_via: (*r.pick(&["stdin_file", "stdin_file", "stdin_pipe", "file", "file"])).to_string(),
+        input_via: if r.chance(1, 30) {
+            "file_dash".to_string()
+        } else {
+            (*r.pick(&["stdin_file", "stdin_file", "stdin_pipe", "file", "file"])).to_string()
+        },
         unquoted: r.chance(1, 3),
         ast: r.chance(1, 8),
         illegal: String::new(),
@@ -809,7 +838,7 @@ fn gen_case(seed: u64) -> Case {
         c.illegal = (*r.pick(&["both_expr_sources", "no_expr"])).to_string();
         c.expr_via = "argv".into();
     }
-    if r.chance(1, 25) {
+    if r.chance(1, 25) || (c.input_via == "file_dash" && r.chance(1, 2)) {
         let mut opts = vec![];
         if c.expr_via == "file" {
             opts.push("expr_missing");
@@ -818,6 +847,10 @@ fn gen_case(seed: u64) -> Case {
         if c.input_via == "file" {
             opts.push("input_missing");
             opts.push("input_is_dir");
+        }
+        if c.input_via == "file_dash" {
+            opts.push("input_missing");
+            opts.push("input_missing");
         }
         if !opts.is_empty() {
             c.real_fs.push((*r.pick(&opts)).to_string());
